@@ -17,12 +17,12 @@ import (
 // (no copy of the repository is written anywhere). The corpus measures the checker; it never enters a verdict.
 type Mutant struct {
 	ID     string `json:"id"`
-	Rule   string `json:"rule"`             // rule expected to report
-	File   string `json:"file"`             // repo-relative path
-	Old    string `json:"old"`              // text to replace
+	Rule   string `json:"rule"` // rule expected to report
+	File   string `json:"file"` // repo-relative path
+	Old    string `json:"old"`  // text to replace
 	New    string `json:"new"`
-	Nth    int    `json:"nth,omitempty"`    // 1-based occurrence when Old occurs several times (0 = must be unique)
-	Expect string `json:"expect"`           // substring of the obligation key that must become a violation
+	Nth    int    `json:"nth,omitempty"` // 1-based occurrence when Old occurs several times (0 = must be unique)
+	Expect string `json:"expect"`        // substring of the obligation key that must become a violation
 	Note   string `json:"note,omitempty"`
 }
 
@@ -38,10 +38,10 @@ func loadMutants() []Mutant {
 }
 
 type mutantResult struct {
-	ID      string `json:"id"`
-	Rule    string `json:"rule"`
-	Status  string `json:"status"` // killed | survived | stale | broken
-	Detail  string `json:"detail,omitempty"`
+	ID     string `json:"id"`
+	Rule   string `json:"rule"`
+	Status string `json:"status"` // killed | survived | stale | broken
+	Detail string `json:"detail,omitempty"`
 }
 
 func applyMutant(repo string, m Mutant) (map[string][]byte, string) {
@@ -256,7 +256,7 @@ func runMutantsForRules(repo string, rs []string) map[string]any {
 		}
 	}
 	return map[string]any{
-		"what": "one-edit variants of today's zrnt sources applied through the go/packages overlay (nothing is executed); each must still type-check and must turn the expected obligation into a violation naming that construct. Measures the checker only: stale/survived never change the verdict.",
+		"what":          "one-edit variants of today's zrnt sources applied through the go/packages overlay (nothing is executed); each must still type-check and must turn the expected obligation into a violation naming that construct. Measures the checker only: stale/survived never change the verdict.",
 		"mutants_total": len(results), "killed": cnt["killed"], "survived": cnt["survived"], "stale": cnt["stale"], "broken": cnt["broken"],
 		"not_killed": notKilled, "samples": sample,
 	}
